@@ -43,24 +43,28 @@ def _merge_hist(outs):
     return m
 
 
-def hist_family(prop, tier, flags, depth_q, depth_t, crash_phases, conform_depth, assumptions_extra, small_q=False, per_child=256):
-    """Shared body of C02/C03/C12/C17: explore all install histories up to a depth."""
+def hist_family(prop, tier, runs, crash_phases, crash_note, conform, assumptions_extra, per_child=256):
+    """Shared body of C02/C03/C12/C17: explore all install histories up to a depth.
+
+    runs: list of (flags, depth, small) explored one after the other; conform: (flags, depth, small)
+    replayed on the unmodified crate.  crash_phases: which process deaths count against this
+    property (0 inside an operation, 1 calling functions while installed, 2 after the injector went away).
+    """
     t0 = time.time()
     mi = mount()
     build(["e3m", "e3r"])
-    depth = depth_q if tier == "quick" else depth_t
-    args = ["hist", "--depth", str(depth), "--per-child", str(per_child)] + flags
-    if tier == "quick" and small_q:
-        args.append("--small")
     os.makedirs(os.path.join(WORK, "dig"), exist_ok=True)
-    outs = run_engine_sharded(bin_path("e3"), args, NCPU, timeout=1500)
-    m = _merge_hist(outs)
-    # conformance: replay every history of the (shallower) conformance depth on the unmodified crate
-    cargs = ["hist", "--depth", str(min(depth, conform_depth)), "--per-child", str(per_child)] + [f for f in flags if f in ("--fs",)]
-    if "--small" in args:
-        cargs.append("--small")
+    merged = []
+    for flags, depth, small in runs:
+        args = ["hist", "--depth", str(depth), "--per-child", str(per_child)] + flags + (["--small"] if small else [])
+        outs = run_engine_sharded(bin_path("e3"), args, NCPU, timeout=2400)
+        m = _merge_hist(outs)
+        m["args"] = args
+        merged.append(m)
+    # conformance: replay every history of the conformance run on the unmodified crate
+    cflags, cdepth, csmall = conform
+    cargs = ["hist", "--depth", str(cdepth), "--per-child", str(per_child)] + cflags + (["--small"] if csmall else [])
     validated = 0
-    cm = []
     for which, b in (("m", "e3"), ("r", "e3real")):
         cmds = [[bin_path(b)] + cargs + ["--shard", f"{i}/{NCPU}", "--digests", os.path.join(WORK, "dig", f"{prop}-{which}-{i}.txt")] for i in range(NCPU)]
         res = run_parallel(cmds, timeout=900)
@@ -74,59 +78,97 @@ def hist_family(prop, tier, flags, depth_q, depth_t, crash_phases, conform_depth
         if len(a) != len(b):
             raise MachineryError("conformance: mounted and unmodified builds enumerated different history sets")
         for x, y in zip(a, b):
+            if x.endswith(" 1") or y.endswith(" 1"):
+                continue  # a history with a violation / process death: the builds need not agree (the environment refuses harmful calls)
             if x == y:
                 validated += 1
             else:
                 mismatches.append((x, y))
-    if mismatches:
-        raise MachineryError(f"conformance: {len(mismatches)} histories observed differently on the mounted and the unmodified crate, e.g. {mismatches[0]}")
     # violations of this property
     viols = []
     undecided = 0
-    for v in sorted(m["violations"], key=lambda v: (v["step"] & 0xFFF, len(v["history"]))):
-        p = v["prop"]
-        if p == "MACHINERY":
-            raise MachineryError(f"{v['key']}: {v['what']} (history {v['history']})")
-        take = p == prop
-        if p == "*":
-            phase = v["step"] >> 12
-            take = phase in crash_phases
-            if not take:
-                undecided += 1
-        if take:
-            viols.append({"key": v["key"], "what": v["what"], "engine": "e3", "args": ["hist"] + flags,
-                          "case": {"history": v["history"], "step": v["step"] & 0xFFF}})
-    # counts of all violating histories per key (the engine lists only the first three of each)
-    for (p, k), n in m["counts"].items():
-        if p == prop:
-            have = sum(1 for v in viols if v["key"] == k)
-            viols += [dict(next(v for v in viols if v["key"] == k)) for _ in range(max(0, min(n, 1000) - have))]
+    for m in merged:
+        mine = []
+        for v in sorted(m["violations"], key=lambda v: (v["step"] & 0xFFF, len(v["history"]))):
+            p = v["prop"]
+            if p == "MACHINERY":
+                raise MachineryError(f"{v['key']}: {v['what']} (history {v['history']})")
+            take = p == prop
+            if p == "*":
+                take = (v["step"] >> 12) in crash_phases
+                if not take:
+                    undecided += 1
+            if take:
+                mine.append({"key": v["key"], "what": v["what"], "engine": "e3", "args": [a for a in m["args"] if a not in ("--small",)][:1] + [f for f in m["args"] if f in ("--fs", "--text", "--flush")],
+                             "case": {"history": v["history"], "step": v["step"] & 0xFFF}})
+        # the engine lists the first three cases per key and counts the rest
+        for (p, k), n in m["counts"].items():
+            have = [v for v in mine if v["key"] == k]
+            if have and n > len(have):
+                mine += [dict(have[0]) for _ in range(min(n, 1000) - len(have))]
+        viols += mine
     cov = {
-        "states": m["prefixes"],
-        "transitions": m["steps"],
+        "states": sum(m["prefixes"] for m in merged),
+        "transitions": sum(m["steps"] for m in merged),
         "traces_validated_against_impl": validated,
-        "samples": m["samples"][:4],
-        "histories": m["histories"],
-        "model_states": m["model_states"],
-        "distinct_outcomes": m["distinct_outcomes"],
-        "bound": {"depth": depth, "alphabet": m["alphabet"], "conformance_depth": min(depth, conform_depth)},
+        "samples": [s for m in merged for s in m["samples"][:3]],
+        "histories": sum(m["histories"] for m in merged),
+        "model_states": max(m["model_states"] for m in merged),
+        "distinct_outcomes": max(m["distinct_outcomes"] for m in merged),
+        "bound": [{"args": m["args"], "depth": m["depth"], "alphabet": m["alphabet"], "histories": m["histories"]} for m in merged]
+                 + [{"conformance_replay": cargs}],
         "exhaustive": True,
-        "histories_ended_by_crash": m["crashed"],
+        "histories_ended_by_process_death": sum(m["crashed"] for m in merged),
         "undecided_histories": undecided,
-        "explanation": "states = distinct operation prefixes reached (every prefix is a concrete state of the real process: live objects cannot be copied, so each history is re-executed); transitions = operations executed on the implementation; every history of exactly `depth` enabled operations over the alphabet was run and judged after every operation",
+        "explanation": "states = distinct operation prefixes reached (every prefix is a concrete state of the real process: live objects cannot be copied, so each history is re-executed from a pristine image); transitions = operations executed on the implementation; every history of exactly `depth` enabled operations over the alphabet was run and judged after every operation. " + crash_note,
     }
-    if m["distinct_outcomes"] < 2:
+    if cov["distinct_outcomes"] < 2:
         raise MachineryError("vacuous exploration: fewer than two distinct observation logs")
+    if mismatches and not viols:
+        raise MachineryError(f"conformance: {len(mismatches)} histories observed differently on the mounted and the unmodified crate, e.g. {mismatches[0]}")
+    cov["conformance_mismatches"] = len(mismatches)
     return finish(prop, tier, t0, cov, viols, COMMON_ASSUMPTIONS + assumptions_extra, mi)
 
 
 def check_c02(tier):
-    return hist_family("C02", tier, [], 4, 6, crash_phases=(1, 2), conform_depth=4,
-                       assumptions_extra=["a process death while calling functions after an operation, or after the injector went away, counts as 'does not behave as before'"])
+    runs = [(["--fs"], 4, False)] if tier == "quick" else [(["--fs"], 5, False), (["--fs"], 7, True)]
+    return hist_family("C02", tier, runs, crash_phases=(1, 2),
+                       crash_note="A process death while calling functions or after the injector went away counts as a violation of C02.",
+                       conform=(["--fs"], 4 if tier == "thorough" else 3, False),
+                       assumptions_extra=["observation calls after every operation do not themselves change state (targets and fakes are pure)"])
+
+
+def check_c03(tier):
+    runs = [(["--fs"], 4, False), (["--fs", "--text"], 3, True)] if tier == "quick" else [(["--fs"], 5, False), (["--fs", "--text"], 4, False)]
+    return hist_family("C03", tier, runs, crash_phases=(),
+                       crash_note="Process deaths are left to C01/C02 (counted as undecided here).",
+                       conform=(["--fs"], 3, False),
+                       assumptions_extra=["executable mappings are enumerated from /proc/self/maps; [vvar]/[vsyscall] are skipped",
+                                          "arena functions are packed at 16-byte pitch around the targets; a thunk target and an 8-byte-pitch pair are included"])
+
+
+def check_c12h(tier):
+    runs = [(["--fs"], 4, False)] if tier == "quick" else [(["--fs"], 5, False)]
+    return hist_family("C12", tier, runs, crash_phases=(),
+                       crash_note="Process deaths are left to C01/C02 (counted as undecided here).",
+                       conform=(["--fs"], 3, False),
+                       assumptions_extra=["trampoline mappings are tracked at the mmap/munmap interface of the crate (vlibc), which is its only way to map memory on Linux"])
+
+
+def check_c17(tier):
+    runs = [(["--fs", "--flush"], 4, False)] if tier == "quick" else [(["--fs", "--flush"], 5, False)]
+    return hist_family("C17", tier, runs, crash_phases=(),
+                       crash_note="Process deaths are left to C01/C02 (counted as undecided here).",
+                       conform=(["--fs"], 3, False),
+                       assumptions_extra=["the platform primitive __clear_cache is interposed (on x86-64 it is a no-op in libgcc); the macOS path (sys_icache_invalidate inside patch_function) is not compiled and not covered",
+                                          "code bytes are observed at every OS call of the crate and at API entry/return; a write and its flush between two consecutive OS calls are ordered by the content recorded at flush time"])
 
 
 CHECKS = {
     "C02": check_c02,
+    "C03": check_c03,
+    "C12": check_c12h,
+    "C17": check_c17,
 }
 
 
